@@ -421,6 +421,19 @@ func c06root(fn *ssa.Function) *ssa.Function {
 	return fn
 }
 
+// c06hasSend: fn or one of its function literals sends on a channel.
+func c06hasSend(fn *ssa.Function) bool {
+	has := false
+	for _, f := range withAnon(fn) {
+		allInstrs(f, func(in ssa.Instruction) {
+			if _, ok := in.(*ssa.Send); ok {
+				has = true
+			}
+		})
+	}
+	return has
+}
+
 func c06inLoop(in ssa.Instruction) bool { return reachableAfter(in, in) }
 
 func c06has(ins []ssa.Instruction, pred func(ssa.Instruction) bool) ssa.Instruction {
@@ -1466,13 +1479,65 @@ func checkC06(c *Check) {
 		chans := map[*ssa.MakeChan]*chanInfo{}
 		var order []*ssa.MakeChan
 		und := ""
-		for _, fn := range withAnon(root) {
+		// K: the function that collects the directions (creates the channel,
+		// starts the senders, receives).  Normally the relay itself; when the
+		// relay has no send of its own it may hand its directions as function
+		// values to one helper (`return firstResult(func() error {copy…}, …)`),
+		// which is then analysed in the relay's place; kc is that call.
+		K := root
+		var kc *ssa.Call
+		if !c06hasSend(root) {
+			var cands []ssa.CallInstruction
+			for _, fn := range withAnon(root) {
+				allInstrs(fn, func(in ssa.Instruction) {
+					ci, ok := in.(ssa.CallInstruction)
+					if !ok {
+						return
+					}
+					g := staticCallee(ci)
+					if g != nil && c06root(g) != root && p.IsRepoFn(g) && len(g.Blocks) > 0 && e.loops[g] == nil && c06hasSend(g) {
+						cands = append(cands, ci)
+					}
+				})
+			}
+			if len(cands) == 1 && cands[0].Parent() == root {
+				if call, ok := cands[0].(*ssa.Call); ok && !c06inLoop(call) {
+					K, kc = staticCallee(call), call
+					c.Saw(fnName(K))
+				}
+			}
+		}
+		// c06dirOf: the direction (closure of the relay) whose result the
+		// collector's send s reports: s sends the result of calling one of K's
+		// function parameters, bound at kc to a function literal of the relay.
+		c06dirOf := func(s *ssa.Send) *ssa.Function {
+			if kc == nil {
+				return nil
+			}
+			call, ok := resolve(s.X).(*ssa.Call)
+			if !ok || call.Call.IsInvoke() {
+				return nil
+			}
+			idx := c06paramIndex(K, call.Call.Value)
+			if idx < 0 || idx >= len(kc.Call.Args) {
+				return nil
+			}
+			var g *ssa.Function
+			switch x := c06res(kc.Call.Args[idx]).(type) {
+			case *ssa.MakeClosure:
+				g, _ = x.Fn.(*ssa.Function)
+			case *ssa.Function:
+				g = x
+			}
+			return g
+		}
+		for _, fn := range withAnon(K) {
 			allInstrs(fn, func(in ssa.Instruction) {
 				switch x := in.(type) {
 				case *ssa.Send:
 					mc, ok := c06res(x.Chan).(*ssa.MakeChan)
-					if !ok || c06root(mc.Parent()) != root {
-						und = "a send at " + p.InstrPos(x) + " goes to a channel that is not created in " + rname
+					if !ok || c06root(mc.Parent()) != K {
+						und = "a send at " + p.InstrPos(x) + " goes to a channel that is not created in " + fnName(K)
 						return
 					}
 					if chans[mc] == nil {
@@ -1511,7 +1576,7 @@ func checkC06(c *Check) {
 					loopy = p.InstrPos(s)
 				}
 				// how often the sending function is started (goroutines / calls)
-				m := e.mult(s.Parent(), root, 0)
+				m := e.mult(s.Parent(), K, 0)
 				if m < 0 {
 					loopy = p.InstrPos(s) + " (its function is started in a loop or through a value)"
 				} else {
@@ -1520,14 +1585,14 @@ func checkC06(c *Check) {
 			}
 			// receives in the root that every return is dominated by
 			var rets []*ssa.Return
-			allInstrs(root, func(in ssa.Instruction) {
-				if r, ok := in.(*ssa.Return); ok && root.Recover != r.Block() {
+			allInstrs(K, func(in ssa.Instruction) {
+				if r, ok := in.(*ssa.Return); ok && K.Recover != r.Block() {
 					rets = append(rets, r)
 				}
 			})
 			must := 0
 			var recvs []*ssa.UnOp
-			allInstrs(root, func(in ssa.Instruction) {
+			allInstrs(K, func(in ssa.Instruction) {
 				u, ok := in.(*ssa.UnOp)
 				if !ok || u.Op != token.ARROW || c06res(u.X) != ssa.Value(mc) {
 					return
@@ -1558,6 +1623,7 @@ func checkC06(c *Check) {
 			}
 			// each send reports the outcome of a copy site of its function
 			badSend := ""
+			dirSent := map[*ssa.Function]bool{}
 			for _, s := range info.sends {
 				ok := false
 				for _, cs := range siteOf[s.Parent()] {
@@ -1565,16 +1631,75 @@ func checkC06(c *Check) {
 						ok = true
 					}
 				}
+				if g := c06dirOf(s); !ok && g != nil && len(siteOf[g]) > 0 {
+					// the collector sends what the direction's function literal
+					// returns: every return of it must hand back its copy's outcome
+					ok = true
+					nr := 0
+					allInstrs(g, func(in ssa.Instruction) {
+						r, isRet := in.(*ssa.Return)
+						if !isRet || g.Recover == r.Block() {
+							return
+						}
+						nr++
+						rs := retResults(r)
+						good := false
+						if len(rs) > 0 {
+							for _, cs := range siteOf[g] {
+								if o := cs.outcome(); o != nil && resolve(rs[len(rs)-1]) == o {
+									good = true
+								}
+							}
+						}
+						if !good {
+							ok = false
+						}
+					})
+					if nr == 0 {
+						ok = false
+					}
+					if ok {
+						dirSent[g] = true
+					}
+				}
 				if !ok {
 					badSend = p.InstrPos(s)
 				}
 			}
+			if kc != nil && badSend == "" {
+				for g, ss := range siteOf {
+					if g != root && !dirSent[g] && badSend == "" {
+						badSend = p.InstrPos(ss[0].call) + " (the copy's function is not among those whose result " + fnName(K) + " sends)"
+					}
+				}
+			}
 			c.Req(badSend == "", "C06.R8:"+rname+":reports-outcome"+suffix, r8, p.InstrPos(mc), "the value sent at "+badSend+" is not the result of that direction's copy (an error / the disconnect sentinel of that direction is lost)")
 			// the relay returns a received value
-			if root.Signature.Results().Len() == 0 {
+			if root.Signature.Results().Len() == 0 || K.Signature.Results().Len() == 0 {
 				c.Undecided("C06.R8:"+rname+":returns-first"+suffix, r8, p.Pos(root.Pos()), "the relay has no result; how the outcome reaches the caller is not analysed")
 			} else {
 				badRet := ""
+				if kc != nil {
+					// the relay hands back what the collector returned
+					allInstrs(root, func(in ssa.Instruction) {
+						r, isRet := in.(*ssa.Return)
+						if !isRet || root.Recover == r.Block() {
+							return
+						}
+						rs := retResults(r)
+						if len(rs) == 0 {
+							badRet = p.InstrPos(r)
+							return
+						}
+						last := resolve(rs[len(rs)-1])
+						if ex, isEx := last.(*ssa.Extract); isEx && ex.Tuple == ssa.Value(kc) && ex.Index == K.Signature.Results().Len()-1 {
+							return
+						}
+						if last != ssa.Value(kc) {
+							badRet = p.InstrPos(r)
+						}
+					})
+				}
 				for _, r := range rets {
 					rs := retResults(r)
 					last := resolve(rs[len(rs)-1])
@@ -1604,6 +1729,13 @@ func checkC06(c *Check) {
 		for f := range relayFns {
 			if f == H {
 				continue
+			}
+			// a function literal holding a relay copy makes the function that
+			// creates it a relay function, however the literal gets started
+			// (go statement, or handed to a helper as a value)
+			if g := f.Parent(); g != nil && !relayFns[g] {
+				relayFns[g] = true
+				changed = true
 			}
 			for _, st := range e.sites[f] {
 				if g := st.Parent(); !relayFns[g] {
@@ -1651,6 +1783,10 @@ func checkC06(c *Check) {
 			for f := range loggingFns {
 				if f == H {
 					continue
+				}
+				if g := f.Parent(); g != nil && !loggingFns[g] {
+					loggingFns[g] = true
+					changed = true
 				}
 				for _, st := range e.sites[f] {
 					if g := st.Parent(); !loggingFns[g] {
